@@ -1,0 +1,41 @@
+//go:build verif
+
+package tls
+
+// Verification hook for property C35 (LRU client session cache): read-only view of the internal state of a
+// cache returned by NewLRUClientSessionCache. Not part of the normal build.
+
+// ZVC35Entry is one element of the recency list.
+type ZVC35Entry struct {
+	Key   string
+	State *ClientSessionState
+}
+
+// ZVC35Dump returns the capacity, q.Len(), the recency list front to back, and for every key of the index map the
+// position in that list of the element the map points to (-1 when the element is not in the list).
+// ok is false when c is not an *lruSessionCache.
+func ZVC35Dump(c ClientSessionCache) (capacity int, qLen int, q []ZVC35Entry, m map[string]int, ok bool) {
+	l, isLRU := c.(*lruSessionCache)
+	if !isLRU {
+		return 0, 0, nil, nil, false
+	}
+	l.Lock()
+	defer l.Unlock()
+	for e := l.q.Front(); e != nil; e = e.Next() {
+		ent := e.Value.(*lruSessionCacheEntry)
+		q = append(q, ZVC35Entry{ent.sessionKey, ent.state})
+	}
+	m = make(map[string]int, len(l.m))
+	for k, el := range l.m {
+		pos, i := -1, 0
+		for e := l.q.Front(); e != nil; e = e.Next() {
+			if e == el {
+				pos = i
+				break
+			}
+			i++
+		}
+		m[k] = pos
+	}
+	return l.capacity, l.q.Len(), q, m, true
+}
